@@ -382,9 +382,22 @@ def run(ctx) -> list[Inst]:
                            if d.path.steps and d.path.steps[-1] == 'associations'
                            and (d.ptype == 'pjs' or DYN in d.path.steps)]
                 construct = f'P5: {c} on Model.associations updates member assets'
+                # updates of `<x>.associations` on objects whose class is not resolved (members handed over by a helper
+                # as (name, assets) pairs ..): possibly the mirror - not decided
+                untyped_ = [n_ for n_ in own_nodes(f.node)
+                            if (isinstance(n_, ast.Assign) and any(isinstance(t_, ast.Attribute) and t_.attr == 'associations'
+                                                                    and isinstance(t_.value, ast.Name) and t_.value.id != f.self_name
+                                                                    for t_ in n_.targets))
+                            or (isinstance(n_, ast.Call) and isinstance(n_.func, ast.Attribute) and n_.func.attr in ('append', 'remove')
+                                and isinstance(n_.func.value, ast.Attribute) and n_.func.value.attr == 'associations'
+                                and isinstance(n_.func.value.value, ast.Name) and n_.func.value.value.id != f.self_name)]
                 if mirrors:
                     insts.append(Inst(RULE, f.short, construct, 'ok', file=rel, line=e.lineno,
                                       props=p5props))
+                elif untyped_:
+                    insts.append(Inst(RULE, f.short, construct, 'unproven',
+                                      msg=f"'{stmt_text(untyped_[0], 60)}' updates an associations list of an object whose class is not resolved",
+                                      file=rel, line=e.lineno, props=p5props))
                 else:
                     insts.append(Inst(
                         RULE, f.short, construct, 'violation',
